@@ -19,7 +19,7 @@ DICT_METHODS = {'get', 'items', 'keys', 'values', 'update', 'pop', 'setdefault',
 SEQ_METHODS = {'index', 'count'}
 
 
-def getattr(I, ctx, fr, v, name, node):
+def getattr_v(I, ctx, fr, v, name, node):
     from . import models as M
     if isinstance(v, VRef):
         h = ctx.heap[v.rid]
@@ -36,6 +36,8 @@ def getattr(I, ctx, fr, v, name, node):
             return VClass({HList: 'builtins.list', HSet: 'builtins.set', HDict: 'builtins.dict'}[type(h)])
         return None
     if isinstance(v, (VStr, VBytes)):
+        return VMethod(v, name)
+    if isinstance(v, M.VListSlot):
         return VMethod(v, name)
     if isinstance(v, (VTuple, VSeq)):
         if name in SEQ_METHODS or name == '__contains__':
@@ -164,6 +166,13 @@ def call_method(I, ctx, fr, sv, name, args, kwargs, node, star=None):
         if name == 'format' and star is not None:
             return strs.brace_format(I, ctx, sv, args, kwargs, star, node)
         return strs.method(I, ctx, fr, sv, name, args, kwargs, node)
+    if isinstance(sv, M.VListSlot):
+        if name == 'append':
+            hh = ctx.mutate(sv.ref, node)
+            cur = z3.Select(hh.arr, sv.kz)
+            hh.arr = z3.Store(hh.arr, sv.kz, z3.Concat(cur, z3.Unit(box(args[0], ctx))))
+            return NONE
+        raise Unsupported('list slot method %s' % name, node)
     h = I.hobj(ctx, sv)
     if isinstance(h, HList):
         return list_method(I, ctx, fr, sv, h, name, args, kwargs, node)
